@@ -8,6 +8,7 @@ CONSTANTS
   WithNull = TRUE
   WithWrong = TRUE
   MaxBad = 2
+  WithUnknown = FALSE
   WithUpd = TRUE
   MaxMut = 1
   MaxLife = 2
